@@ -131,7 +131,7 @@ def cert_validate(ctype: int, want_type: int, after: int, before: int, now: int,
     cert._valid_before = before
     princ = pick(PRINC, pr)
     cert.principals = list(princ)
-    wanted = pick(['server.example', 'nobody', None], who)
+    wanted = pick(['server.example', 'nobody', None, ''], who)
     saved = PK.time
     PK.time = Clock(now)
     try:
@@ -175,18 +175,18 @@ OBLIGATIONS = [
        bounds='presented blob = plain key / OpenSSH certificate / undecodable; every combination of listed, revoked, application verdicts, CA listed / '
               'revoked, certificate type user/host, valid_after/before/now in 0..5, 4 principal lists, host key alias or not, known_hosts disabled or not'),
     Ob('cert_validate', cert_validate,
-       sym=dict(ctype=R(1, 2), want_type=R(0, 2), after=R(0, 4), before=R(0, 5), now=R(0, 5), pr=R(0, 3), who=R(0, 2)), timeout=200,
+       sym=dict(ctype=R(1, 2), want_type=R(0, 2), after=R(0, 4), before=R(0, 5), now=R(0, 5), pr=R(0, 3), who=R(0, 3)), timeout=200,
        functions=[PK.SSHOpenSSHCertificate.validate],
-       bounds='certificate type x wanted type (any/user/host) x window/now in 0..5 x 4 principal lists x wanted principal {listed name, other, None}'),
+       bounds='certificate type x wanted type (any/user/host) x window/now in 0..5 x 4 principal lists x wanted principal {listed name, other, None, empty string}'),
     Ob('match_sets', match_sets, sym=dict(nk=R(0, 2), nca=R(0, 2), nrev=R(0, 2)), timeout=90,
        functions=[C.SSHConnection._match_known_hosts], bounds='0..2 keys in each of the three result lists'),
     Ob('known_hosts_lookup', kh_lookup,
-       sym=dict(m0=R(0, 2), f0=R(0, 13), k0=R(0, 2), m1=R(0, 2), f1=R(0, 13), k1=R(0, 2), hi=R(0, 3), ai=R(0, 2), port=B),
-       shards=dict(f0=[0, 6, 7, 11], k0=[0], k1=[1], m1=[0], m0=[0, 1], ai=[0, 1]),
-       thorough_shards=dict(f0=list(range(14)), k0=[0], k1=[1], m0=[0, 1, 2]),
+       sym=dict(m0=R(0, 2), f0=R(0, 15), k0=R(0, 2), m1=R(0, 2), f1=R(0, 15), k1=R(0, 2), hi=R(0, 3), ai=R(0, 2), port=B),
+       shards=dict(f0=[0, 6, 7, 11, 14], k0=[0], k1=[1], m1=[0], m0=[0, 1], ai=[0, 1]),
+       thorough_shards=dict(f0=list(range(16)), k0=[0], k1=[1], m0=[0, 1, 2]),
        timeout=200, thorough_timeout=600,
        functions=['asyncssh.known_hosts.SSHKnownHosts.match / _match (same harness as C17.known_hosts)'],
-       bounds='2-line known_hosts files: first line exact / [host]:port / [*]:port / hashed-with-port form, plain or @cert-authority; second line any of 14 forms; host/address/port queries - the trusted / CA / revoked sets equal the reference lookup incl. the port fallback rule'),
+       bounds='2-line known_hosts files: first line exact / [host]:port / [*]:port / hashed-with-port / negated-later-element form, plain or @cert-authority; second line any of 16 forms; host/address/port queries - the trusted / CA / revoked sets equal the reference lookup incl. the port fallback rule'),
     Ob('no_newkeys_without_trust', client_verify, sym=dict(f=R(0, 6), sigflaw=R(0, 4), keyok=B, trailing=B), timeout=150,
        functions=['asyncssh.kex_dh._KexDHBase._process_reply (same harness as C03.client_verify)'],
        bounds='see C03.client_verify: NEWKEYS only after validate_server_host_key returned and the signature verified'),
